@@ -31,11 +31,26 @@ RULE = ("seeded generator over classes {both empty, one side empty, repeated poi
         "diagrams), identical multisets in another order at offsets up to 1e5, diagonal points, infinite/nan deaths, Pythagorean offsets (all point-point costs rational), "
         "input dtype (integer-valued diagrams as uint8/uint16/int8/int16/int32/int64/float32/float64 arrays whose "
         "differences are negative or exceed the narrow range; spec evaluated on the values), "
-        "mixed (optimal matching uses cross and diagonal pairings), dyadic grid, random doubles, scale 2^+-20}; "
-        "sizes 0-6 per side (quick), up to 25 (thorough); a case is non-trivial when the call succeeds and either "
+        "mixed (optimal matching uses cross and diagonal pairings), dyadic grid, random doubles, scale 2^+-20, "
+        "thin (short bars at offsets +-1e3..1e6 with persistence 3e-7..3e-4 of the coordinates; whole diagrams in units of "
+        "1e-7..1e-12; two candidate partners whose costs differ by 1e-6..1e-4 relative), "
+        "large (sizes just above 16/32/64/128 per side in quick, up to 260 in thorough; above 72 points in total the "
+        "spec predicate alone judges)}; about 30% of the array cases are handed over in another memory layout / container "
+        "(Fortran order, two-column view of a wider buffer, every-other-row view, negative row stride, read-only, tuple of tuples); "
+        "sizes 0-6 per side (quick), up to 25 (thorough). "
+        "Call histories (harness/history.py; 18 quick, 264 thorough; each in its own forked interpreter in which persim "
+        "has made no call yet; equal-valued arguments of different steps are the same objects; every step is the "
+        "call with matching=False, the call with matching=True and the first call repeated, and must satisfy the "
+        "single-call predicate): fault (0-2 clean calls, one or two calls persim rejects - nan/-inf/+inf birth with finite "
+        "death so that the solver raises on the filled cost matrix, or a malformed container; in half of them the "
+        "other argument is a diagram object of the clean steps - then 2-4 clean calls on smaller / differently split "
+        "sizes), sizes (sizes going down, the same M+N split differently, and up again), pairwise (all-pairs loop over "
+        "3-4 diagram objects incl. d(x,x), optionally with a corrupt member whose pairs are rejected), slot (two caller "
+        "buffers overwritten in place between calls). "
+        "A single case is non-trivial when the call succeeds and either "
         "the optimal matching found independently pairs at least one point across and sends at least one point to "
         "the diagonal, or the case exercises an edge class (empty side, non-finite death, repeated or diagonal "
-        "point); distinct = distinct JSON input")
+        "point, dtype, thin); a history is non-trivial when at least two of its clean steps are; distinct = distinct JSON input")
 TRUSTED_BASE = [
     "Coq 8.16.1 kernel, vm_compute (no native_compute)",
     "stdlib axioms of the classical reals: ClassicalDedekindReals.sig_forall_dec, sig_not_dec, "
@@ -43,12 +58,18 @@ TRUSTED_BASE = [
     "hand-written model Model/WassM.v of wasserstein.py lines 46-110; its executable enclosure Model/WassEncM.v",
     "Section hypothesis: scipy.optimize.linear_sum_assignment returns an optimal assignment "
     "(monitored on every real call: permutation + value equals the exact optimum of the same float matrix)",
-    "harness: generator, float->exact-rational printer, certificate computation (wrong certificates give skip)",
+    "harness: generator, float->exact-rational printer, certificate computation (wrong certificates give skip); "
+    "call histories (harness/history.py) and their isolation by os.fork in impl_run; histories and cases with more "
+    "than 72 points are judged by the Python spec predicate only (brute force / two independent solvers), not by the Coq model",
 ]
 ASSUMPTIONS = [
     "numpy/scipy semantics of isfinite masking, cdist, dot, fill_diagonal, fancy indexing are as modelled",
     "binary64 rounding of the implementation is bounded by the tolerance 1e-9 * max(1-norm scale of the inputs), not proved",
     "inputs are (n,2) arrays / lists; extra columns are outside the property's quantifier",
+    "the model is a function of one call's arguments: independence of a call from earlier calls in the same process "
+    "(module state, caller's arrays modified in place, state left by a rejected call) is tested by the histories, not proved",
+    "calls that persim rejects (non-finite birth, malformed container) are outside the property; nothing is asked of them "
+    "except that later calls still satisfy it",
 ]
 COQ_DEPS = ["Corr/WassCorr.vo"]
 RTOL = Fraction(1, 10 ** 9)
@@ -868,6 +889,10 @@ def _dec(fr):
     return Decimal(fr.numerator) / Decimal(fr.denominator)
 
 
+def _show(x):
+    return "%.20E" % x if x != 0 and abs(x) < Decimal("1e-4") else str(x)[:24]
+
+
 def predicate(c, o):
     if history.is_hist(c):
         return history.predicate(c, o, predicate)
@@ -880,14 +905,14 @@ def predicate(c, o):
     tol = _dec(tol_of(c))
     if abs(Decimal(d) - want) > tol:
         return False, "value: returned %r, minimum over all partial matchings is %s (|diff| %.3g > tol %.3g)" % (
-            d, str(want)[:24], float(abs(Decimal(d) - want)), float(tol))
+            d, _show(want), float(abs(Decimal(d) - want)), float(tol))
     if "dist_m" in o and abs(Decimal(o["dist_m"]) - Decimal(d)) > tol:
         return False, "flag: matching=True returns %r, matching=False %r" % (o["dist_m"], d)
     if "dist_again" in o:
         d2 = o["dist_again"]
         if not (isinstance(d2, float) and math.isfinite(d2)) or abs(Decimal(d2) - want) > tol:
             return False, "again: the same call repeated on the same objects returns %r, minimum over all partial matchings is %s" % (
-                d2, str(want)[:24])
+                d2, _show(want))
     if "warn" in o:
         exp = [any(_is_nonfinite(x[1]) for x in c["S"]), any(_is_nonfinite(x[1]) for x in c["T"])]
         if list(o["warn"]) != exp:
@@ -1119,6 +1144,13 @@ def shrink_candidates(c):
         if len(c["seq"]) == 1 and not c["seq"][0].get("fault"):
             yield c["seq"][0]          # one step left: not a history effect, report the single call
         return
+    for key in ("S", "T"):
+        n = len(c[key])
+        if n > 8:          # large diagrams: halves and quarters first
+            for lo, hi in ((0, n // 2), (n // 2, n), (0, n // 4), (n - n // 4, n)):
+                d = dict(c)
+                d[key] = c[key][:lo] + c[key][hi:]
+                yield d
     for key in ("S", "T"):
         for i in range(len(c[key])):
             d = dict(c)
